@@ -285,6 +285,10 @@ def run(tier, seed, replay=None):
     n_crates = 4 if tier == "quick" else 48
     cfg = c01.e2e_cfg(p_sub=0.35, max_depth=3, n_keys=(14, 22), namespaces=0.4, p_fk=0.15, p_lit_other=0.15)
     projs = [projects.gen_valid_project(rng, cfg) for _ in range(n_crates)]
+    # the first project (every fourth in the thorough tier) has an inheritance chain whose children leave half of their keys to the parent
+    icfg = c01.e2e_cfg(p_sub=0.35, max_depth=3, n_keys=(14, 22), namespaces=0.4, p_fk=0.15, p_lit_other=0.15, n_locales=(3, 4), force_inherits=True)
+    for i in range(0, n_crates, 4):
+        projs[i] = projects.gen_valid_project(rng, icfg)
     for p in projs:
         add_plural_keys(p, rng)
         add_formatter_keys(p)
